@@ -31,6 +31,7 @@ ASSUMPTIONS = [
 def check_inverse(ctx, a, m, enum=False):
     ctx.ev()
     case = {"fn": "inverse", "a": a, "m": m}
+    ctx.case_sample(case)
     try:
         i = NT.inverse_mod(a, m)
     except Exception as e:
@@ -50,6 +51,7 @@ def check_inverse(ctx, a, m, enum=False):
 def check_sqrt(ctx, a, p, enum=False):
     ctx.ev()
     case = {"fn": "sqrt", "a": a, "p": p}
+    ctx.case_sample(case)
     cls = "3mod4" if p % 4 == 3 else ("5mod8" if p % 8 == 5 else "1mod8")
     is_res = a == 0 or pow(a, (p - 1) // 2, p) == 1
     try:
